@@ -395,7 +395,8 @@ func valueFromAST(valueAST ast.Value, ttype Input, variables map[string]interfac
 			var value interface{}
 			if of, ok = fieldASTs[name]; ok {
 				value = valueFromAST(of.Value, field.Type, variables)
-			} else {
+			}
+			if isNullish(value) {
 				value = field.DefaultValue
 			}
 			if !isNullish(value) {
